@@ -183,6 +183,12 @@ pub fn via_text(v: &Value) -> Option<Value> {
 /// Same JSON document: strings, booleans, null and structure exactly; numbers of the same spelling class
 /// (integer / float) with equal values, floats up to the last bits (serde_json's default parser is not bit-exact
 /// on its own shortest output).
+/// two doubles that serde_json's default (not bit-exact) float parser may produce for the same text: equal up to a
+/// few units in the last place - for subnormal numbers one unit is 5e-324 whatever the magnitude
+pub fn close(p: f64, q: f64) -> bool {
+    p == q || (p - q).abs() <= (4.0 * f64::EPSILON * p.abs().max(q.abs())).max(f64::from_bits(4))
+}
+
 pub fn same_document(a: &Value, b: &Value) -> bool {
     match (a, b) {
         (Value::Number(x), Value::Number(y)) => {
@@ -193,7 +199,7 @@ pub fn same_document(a: &Value, b: &Value) -> bool {
                 return false;
             }
             match (x.as_f64(), y.as_f64()) {
-                (Some(p), Some(q)) if x.is_f64() => p == q || (p - q).abs() <= 4.0 * f64::EPSILON * p.abs().max(q.abs()),
+                (Some(p), Some(q)) if x.is_f64() => close(p, q),
                 _ => false,
             }
         }
